@@ -1,0 +1,14 @@
+//go:build verif
+
+package in_toto
+
+// VerifHook, when set, receives the events emitted at the verification,
+// command and recording hook points. It exists only in builds with the
+// `verif` tag and is used by external runtime monitors.
+var VerifHook func(ev string, args ...any)
+
+func verifEmit(ev string, args ...any) {
+	if h := VerifHook; h != nil {
+		h(ev, args...)
+	}
+}
